@@ -391,8 +391,14 @@ class symeig_torchfcn(torch.autograd.Function):
             gevecsM = -gevecsA * evals.unsqueeze(-2)
 
             # the contribution from the parallel elements
-            gevecsM_par = (-0.5 * torch.einsum("...ae,...ae->...e", grad_evecs, evecs.conj())
-                           ).unsqueeze(-2) * evecs  # (*BAM, na, neig)
+            if idx_degen is None:
+                gevecsM_par = (-0.5 * torch.einsum("...ae,...ae->...e", grad_evecs, evecs.conj())
+                               ).unsqueeze(-2) * evecs  # (*BAM, na, neig)
+            else:
+                # in a degenerate subspace, the normalization X^H M X = I also fixes the
+                # cross terms between the eigenvectors of the same eigenvalue
+                xhg = torch.matmul(evecs.transpose(-2, -1).conj(), grad_evecs)  # (*BAM, neig, neig)
+                gevecsM_par = -0.5 * torch.matmul(evecs, idx_degen * xhg)  # (*BAM, na, neig)
 
             gaccumM = gevalsM + gevecsM + gevecsM_par
             grad_mparams = torch.autograd.grad(
